@@ -16,7 +16,9 @@ REGISTRY = {
             'label shift, 1e-6 cut-off, round-half-even, sums for termini/labile/unknown/intervals) with every mass a parameter: '
             'same residues, numeric-only output, unmodified peptide unchanged, shifts only on modified positions, '
             '|mass(out)-mass(in)| <= k/2*10^-p (+1e-6 per nonzero quantity under the cut-off) for ANY weights without label and, '
-            'with a label in force, in every environment where the two mass calculators agree (Coherent); the text written '
+            'with a label in force, + the explicit slack |tabulated - composition mass| of the modifications outside residue '
+            'positions, in every table-coherent environment - which the concrete environment over the regenerated tables is '
+            '(kernel-checked); the no-label clause is carried to Mass.mass of the C02 model; the text written '
             'denotes the rounded number. Model tied to /repo by differential correspondence (text, numbers within 10^-p); the '
             'property itself is evaluated on the implementation with mass as oracle and an independent per-position reference',
     'note': 'trusted: Lean kernel, axioms propext/Classical.choice/Quot.sound, the correspondence harness, numbers resolved by the '
@@ -305,7 +307,7 @@ def run(chk):
                   open(os.environ['VERIF_DEBUG'], 'w'), indent=1, default=str)
     if big:
         chk.leanchecker(['PeptVerif.Props.C18', 'PeptVerif.Model.CondenseMass', 'PeptVerif.Lemmas.CondenseMass',
-                         'PeptVerif.Lemmas.CondenseLabel', 'PeptVerif.Lemmas.DecText'])
+                         'PeptVerif.Lemmas.CondenseLabel', 'PeptVerif.Lemmas.DecText', 'PeptVerif.Props.C18Concrete'])
     return chk.finish(classify)
 
 
